@@ -77,10 +77,55 @@ Definition written (ops : list op) : str :=
    && code <= 199 && code != StatusSwitchingProtocols"); 101 is outside the modelled domain *)
 Definition is_1xx (c : N) : bool := (100 <=? c) && (c <=? 199).
 
-(* acceptsGzip (gzip_handler.go:115-123): r.Header.Get = first value or "" *)
+(* strings.Cut(s, string(c)): before and after the first c (after = "" when there is none) *)
+Fixpoint cut_byte (s : str) (c : N) : str * str :=
+  match s with
+  | [] => ([], [])
+  | x :: r => if x =? c then ([], r) else let (a, b) := cut_byte r c in (x :: a, b)
+  end.
+
+(* strings.TrimSpace on ASCII: \t \n \v \f \r and space (multi-byte Unicode spaces are outside the domain) *)
+Definition is_space (c : N) : bool := (c =? 32) || ((9 <=? c) && (c <=? 13)).
+Fixpoint trim_space_left (s : str) : str :=
+  match s with c :: r => if is_space c then trim_space_left r else s | [] => [] end.
+Definition trim_space (s : str) : str := rev (trim_space_left (rev (trim_space_left s))).
+
+(* strings.Trim(q, "0.") == "" *)
+Definition zero_dot (q : str) : bool := forallb (fun c => (c =? 48) || (c =? 46)) q.
+
+Definition is_gzip_name (n : str) : bool := beq n GZIP || beq n (bs "x-gzip").
+
+(* the weight test shared by both versions of the loop: CutPrefix(p, "q="); Trim(q, "0.") == "" && q != "" *)
+Definition zero_weight (p : str) : bool :=
+  match p with
+  | c :: d :: q => (c =? 113) && (d =? 61) && zero_dot q && negb (beq q [])
+  | _ => false
+  end.
+
+(* one element of Accept-Encoding in acceptsGzip's loop (commits 7cff601 + bfb8a14): true = "return true"
+   here.  strings.ToLower is modelled on ASCII ([lower]). *)
+Definition gzip_elem_ok (e : str) : bool :=
+  let (name, params) := cut_byte e 59 in
+  is_gzip_name (lower (trim_space name)) && negb (zero_weight (lower (trim_space params))).
+
+(* acceptsGzip (gzip_handler.go:115-142): r.Header.Get = first value or "" *)
 Definition accepts_gzip (accept ae : list str) : bool :=
   if contains (hd [] accept) EVENT_STREAM then false
+  else existsb gzip_elem_ok (split_byte (hd [] ae) 44).
+
+(* before commit 7cff601: strings.Contains(Accept-Encoding, "gzip"), weights ignored *)
+Definition accepts_gzip_unrepaired (accept ae : list str) : bool :=
+  if contains (hd [] accept) EVENT_STREAM then false
   else contains (hd [] ae) GZIP.
+
+(* between commits 7cff601 and bfb8a14: element-wise, but the name matched by substring and the
+   weight's "q=" case-sensitively *)
+Definition gzip_elem_ok_7cff601 (e : str) : bool :=
+  let (name, params) := cut_byte e 59 in
+  contains name GZIP && negb (zero_weight (trim_space params)).
+Definition accepts_gzip_7cff601 (accept ae : list str) : bool :=
+  if contains (hd [] accept) EVENT_STREAM then false
+  else existsb gzip_elem_ok_7cff601 (split_byte (hd [] ae) 44).
 
 Section Handler.
 Variable sniff : str -> str.     (* http.DetectContentType *)
@@ -215,13 +260,25 @@ Definition rec_result (r : rcd) (fed : option str) (p : bool) : result :=
 Definition grw_result (g : grw) : result :=
   rec_result (g_rec g) (match g_sel g with Some true => Some (g_fed g) | _ => None end) (g_panic g).
 
-(* NewGzipHandler; [h0] = headers already on the ResponseWriter *)
-Definition handler (h0 : hdr) (accept ae : list str) (ops : list op) : result :=
+(* NewGzipHandler; [h0] = headers already on the ResponseWriter; [acc] = acceptsGzip(r) *)
+Definition handler_core (acc : bool) (h0 : hdr) (ops : list op) : result :=
   let r0 := rec_new (hadd h0 H_VARY H_AE) in
-  if accepts_gzip accept ae
+  if acc
   then grw_result (grw_run ops (mkG None [] false r0))
   else rec_result (rec_run ops r0) None false.
 
+Definition handler (h0 : hdr) (accept ae : list str) (ops : list op) : result :=
+  handler_core (accepts_gzip accept ae) h0 ops.
+
+(* the code before commit 7cff601 (Accept-Encoding weights ignored) *)
+Definition handler_q0_unrepaired (h0 : hdr) (accept ae : list str) (ops : list op) : result :=
+  handler_core (accepts_gzip_unrepaired accept ae) h0 ops.
+
+(* the code between commits 7cff601 and bfb8a14 *)
+Definition handler_q0_7cff601 (h0 : hdr) (accept ae : list str) (ops : list op) : result :=
+  handler_core (accepts_gzip_7cff601 accept ae) h0 ops.
+
+(* the code before commit a52f2fd (an informational WriteHeader decided) *)
 Definition handler_unrepaired (h0 : hdr) (accept ae : list str) (ops : list op) : result :=
   let r0 := rec_new (hadd h0 H_VARY H_AE) in
   if accepts_gzip accept ae
@@ -238,57 +295,38 @@ End Handler.
 Definition body_of (gz : str -> str) (res : result) : str :=
   o_plain res ++ match o_fed res with Some f => gz f | None => [] end.
 
-(* ================= specification side: RFC 9110 12.5.3 Accept-Encoding ================= *)
-Definition is_ows (c : N) : bool := (c =? 32) || (c =? 9).
-Fixpoint trim_left (s : str) : str :=
-  match s with c :: r => if is_ows c then trim_left r else s | [] => [] end.
-Definition trim (s : str) : str := rev (trim_left (rev (trim_left s))).
+(* ================= specification side: RFC 9110 12.5.3 Accept-Encoding =================
+   Accept-Encoding = #( codings [ weight ] ),  weight = OWS ";" OWS "q=" qvalue  (12.4.2; the
+   literal "q" is case-insensitive, RFC 5234).  An element is read as  coding [ ";" params ];
+   params are a weight only if they are exactly one  q=<value>  (either case, no further ";");
+   anything else after the coding is not a weight and is ignored (lenient: weight 1). *)
 
-(* qvalue = "0" [ "." 0*3("0") ]   (anything else that parses is non-zero) *)
+(* qvalue = "0" [ "." *("0") ]   (anything else is taken as non-zero) *)
 Definition q_zero (v : str) : bool :=
   match v with
-  | 48 :: [] => true
-  | 48 :: 46 :: ds => forallb (fun c => c =? 48) ds
-  | _ => false
+  | [] => false
+  | a :: [] => a =? 48
+  | a :: b :: ds => (a =? 48) && (b =? 46) && forallb (fun c => c =? 48) ds
   end.
 
-(* "q" OWS? "=" value *)
-Definition param_q (p : str) : option str :=
-  match trim p with
-  | c :: r => if (c =? 113) || (c =? 81)
-              then match trim_left r with 61 :: v => Some (trim v) | _ => None end
-              else None
-  | [] => None
+Definition strict_weight (params : str) : option str :=
+  match trim_space params with
+  | c :: d :: v => if ((c =? 113) || (c =? 81)) && (d =? 61) && negb (existsb (N.eqb 59) v) then Some v else None
+  | _ => None
   end.
 
-Fixpoint first_q (ps : list str) : option str :=
-  match ps with
-  | [] => None
-  | p :: r => match param_q p with Some v => Some v | None => first_q r end
-  end.
-
-(* one list element -> (lower-cased coding, weight is non-zero) *)
+(* one list element -> (lower-cased coding, its weight is not zero) *)
 Definition coding (e : str) : str * bool :=
-  match split_byte e 59 with
-  | [] => ([], true)
-  | n :: ps => (lower (trim n), match first_q ps with Some v => negb (q_zero v) | None => true end)
-  end.
+  let (name, params) := cut_byte e 59 in
+  (lower (trim_space name), match strict_weight params with Some v => negb (q_zero v) | None => true end).
 
-Definition is_gzip_name (n : str) : bool := beq n GZIP || beq n (bs "x-gzip").
-
-(* does the request allow a gzip-coded response?  an explicit gzip / x-gzip entry decides,
-   else "*"; no field at all is treated as "no" (the conservative reading) *)
+(* does the request allow a gzip-coded response?  if gzip / x-gzip is listed: some such entry has
+   a non-zero weight; else "*" with a non-zero weight; no field at all is treated as "no" *)
 Definition rfc_accepts_gzip (ae : list str) : bool :=
   let cs := map coding (flat_map (fun v => split_byte v 44) ae) in
-  match find (fun c => is_gzip_name (fst c)) cs with
-  | Some c => snd c
-  | None => match find (fun c => beq (fst c) [42]) cs with Some c => snd c | None => false end
-  end.
-
-(* known-finding region 1: the code's substring test says yes where the RFC says no
-   ("gzip;q=0", "identity, gzip;q=0.0", a coding that merely contains the letters) *)
-Definition q0_region (ae : list str) : bool :=
-  contains (hd [] ae) GZIP && negb (rfc_accepts_gzip ae).
+  if existsb (fun c => is_gzip_name (fst c)) cs
+  then existsb (fun c => is_gzip_name (fst c) && snd c) cs
+  else existsb (fun c => beq (fst c) [42] && snd c) cs.
 
 (* ================= handlers sharing the pool of gzip writers (gzipWriterPool) =================
    A pooled writer is represented by the bytes it still holds from whoever used it last.
